@@ -556,8 +556,16 @@ def hostile_step(binary, v, props, cfg):
         for i in range(0, len(names), per):
             chunk = {n: files[n][0] for n in names[i:i + per]}
             jobs.append((binary, structured, chunk, (i // per) % 2 == 0))
+    hostile.SKIP_REST.value = 0
     with multiprocessing.get_context("fork").Pool(max(2, min(common.NCPU - 2, 12))) as pool:
-        outs = pool.map(hostile.run_batch, jobs, chunksize=1)
+        # when the program hangs or dies on many batches the remaining ones add nothing: after the first dozen the
+        # remaining batches are skipped (the workers are left to finish what they are running)
+        outs, bad = [], 0
+        for out in pool.imap(hostile.run_batch, jobs, chunksize=1):
+            outs.append(out)
+            bad += 1 if out.abnormal else 0
+            if bad >= 12:
+                hostile.SKIP_REST.value = 1
     for job, out in zip(jobs, outs):
         v.cov["hostile_files"] = v.cov.get("hostile_files", 0) + out.files
         v.cov["hostile_files_with_insertions"] = v.cov.get("hostile_files_with_insertions", 0) + out.with_insertions
